@@ -67,7 +67,7 @@ class AtomsEngine(Engine):
         return 2200 if tier == "quick" else 60000
 
     def timeout(self, tier):
-        return 120
+        return 600
 
     # ------------------------------------------------------------------ setup
     def setup(self):
